@@ -4,6 +4,28 @@
 //! limit, upvalue limit, C-levels limit, goto/label rules, break placement).
 
 use std::collections::HashMap;
+use std::hash::{BuildHasherDefault, Hasher};
+
+/// FNV-1a: the keys are short identifiers / string constants
+#[derive(Default)]
+pub struct Fnv(u64);
+
+impl Hasher for Fnv {
+    #[inline]
+    fn write(&mut self, bytes: &[u8]) {
+        let mut h = if self.0 == 0 { 0xcbf2_9ce4_8422_2325 } else { self.0 };
+        for &b in bytes {
+            h = (h ^ b as u64).wrapping_mul(0x0100_0000_01b3);
+        }
+        self.0 = h;
+    }
+    #[inline]
+    fn finish(&self) -> u64 {
+        self.0
+    }
+}
+
+type FastMap<K, V> = HashMap<K, V, BuildHasherDefault<Fnv>>;
 
 use crate::ast::*;
 use crate::lexer::{token2str, LexError, Lexer, Tok};
@@ -76,13 +98,13 @@ pub struct Parser<'a> {
     lastline: u32,
     fs: Vec<FuncState>,
     consts: Vec<Box<[u8]>>,
-    const_map: HashMap<Box<[u8]>, u32>,
+    const_map: FastMap<Box<[u8]>, u32>,
     protos: Vec<FuncProto>,
     level: u32,
     labels: Vec<LabelDesc>,
     gotos: Vec<LabelDesc>,
     env_name: u32,
-    global_use: HashMap<u32, (i64, i64)>,
+    global_use: FastMap<u32, (i64, i64)>,
 }
 
 fn lexerr(e: LexError) -> LoadError {
@@ -176,13 +198,13 @@ impl<'a> Parser<'a> {
             lastline: 1,
             fs: Vec::new(),
             consts: Vec::new(),
-            const_map: HashMap::new(),
+            const_map: FastMap::default(),
             protos: Vec::new(),
             level: 1,
             labels: Vec::new(),
             gotos: Vec::new(),
             env_name: 0,
-            global_use: HashMap::new(),
+            global_use: FastMap::default(),
         };
         p.env_name = p.konst(b"_ENV");
         p
@@ -306,12 +328,12 @@ impl<'a> Parser<'a> {
     }
 
     fn str_checkname(&mut self) -> PR<u32> {
-        let k = match &self.t.tok {
-            Tok::Name(n) => {
-                let n = n.clone();
-                self.konst(&n)
+        let k = match self.t.tok {
+            Tok::Name => {
+                let n = self.lx.span(self.t.start, self.t.end);
+                self.konst(n)
             }
-            _ => return self.error_expected(&Tok::Name(Vec::new())),
+            _ => return self.error_expected(&Tok::Name),
         };
         self.next()?;
         Ok(k)
@@ -627,7 +649,7 @@ impl<'a> Parser<'a> {
         if self.t.tok != Tok::Char(b')') {
             loop {
                 match self.t.tok {
-                    Tok::Name(_) => {
+                    Tok::Name => {
                         let k = self.str_checkname()?;
                         self.new_localvar(k)?;
                         n += 1;
@@ -695,7 +717,7 @@ impl<'a> Parser<'a> {
 
     fn primaryexp(&mut self) -> PR<Expr> {
         match self.t.tok {
-            Tok::Name(_) => self.singlevar(),
+            Tok::Name => self.singlevar(),
             Tok::Char(b'(') => {
                 let line = self.line();
                 self.next()?;
@@ -752,12 +774,12 @@ impl<'a> Parser<'a> {
             }
             // field
             let is_rec = match self.t.tok {
-                Tok::Name(_) => *self.lookahead()? == Tok::Char(b'='),
+                Tok::Name => *self.lookahead()? == Tok::Char(b'='),
                 Tok::Char(b'[') => true,
                 _ => false,
             };
             if is_rec {
-                let key = if let Tok::Name(_) = self.t.tok {
+                let key = if let Tok::Name = self.t.tok {
                     let k = self.str_checkname()?;
                     Expr::Str(k)
                 } else {
